@@ -231,6 +231,50 @@ func c19Check(data []byte, schedule string, seed uint64, deferred bool) (kind, m
 		kind, msg = c19Fault(data, k, rest[:i])
 		return kind, msg, false
 	}
+	if schedule == "slow-pipe" {
+		// an OS pipe whose writer delivers the first part at once and the rest three seconds after Load
+		// has returned (a deadline, timer or context a loader arms for its own reading must not outlive it)
+		exp, _ := c19Expected(data)
+		if exp.Panic != "" || exp.sourceDependent != "" {
+			return "", "n/a", false
+		}
+		pr, pw, perr := os.Pipe()
+		if perr != nil {
+			return "", "os.Pipe failed: n/a", false
+		}
+		defer pr.Close()
+		loaded := make(chan struct{})
+		head := len(data) - 64
+		if head < 0 {
+			head = 0
+		}
+		go func() {
+			_, _ = pw.Write(data[:head]) // (blocks while the pipe is full: the reader sets the pace)
+			select {
+			case <-loaded:
+				time.Sleep(3 * time.Second)
+			case <-time.After(8 * time.Second): // the loader wants the last bytes too: no point in holding them back
+			}
+			_, _ = pw.Write(data[head:])
+			_ = pw.Close()
+		}()
+		res := loadWith("autometa", pr)
+		close(loaded)
+		if res.Panic != nil {
+			return "panic", fmt.Sprintf("autometa.Load panicked: %v", res.Panic), false
+		}
+		if got := summarise(res); exp.OK && !got.same(exp) {
+			return "differs", fmt.Sprintf("from a pipe: autometa.Load gives %s; the first specific loader that succeeds gives %s", sumStr(got), sumStr(exp)), false
+		}
+		if res.Stream == nil {
+			return "nil-stream", "autometa.Load returned a nil stream", false
+		}
+		out, rerr, _ := src.ReadAllChunks(res.Stream, 4096, int64(len(data))+1<<16)
+		if rerr != nil || !bytes.Equal(out, data) {
+			return "stream", fmt.Sprintf("from a pipe whose writer delivers the last %d bytes three seconds after Load has returned: autometa.Load's stream gives %d bytes that %s, err %v", len(data)-head, len(out), firstDiff(out, data), rerr), false
+		}
+		return "", "ok", false
+	}
 	if strings.HasPrefix(schedule, "named:") {
 		kind, msg = c19Named(data, schedule[len("named:"):])
 		return kind, msg, false
@@ -640,6 +684,31 @@ func runC19(r *core.Run) {
 		}
 	})
 	_ = outcomes
+	if r.Variant == "" {
+		// three inputs above 70 000 bytes (one per format if there is one) through the slow pipe, at the same time
+		var slow []c19Input
+		seen := map[string]bool{}
+		for _, x := range in {
+			if len(x.bytes) > 70100 && len(x.bytes) < 3<<20 {
+				exp, _ := c19Expected(x.bytes)
+				if exp.OK && !seen[exp.Format] {
+					seen[exp.Format] = true
+					slow = append(slow, x)
+				}
+			}
+			if len(slow) == 3 {
+				break
+			}
+		}
+		core.ParallelFor(len(slow), 3, func(i int) {
+			kind, msg, _ := c19Check(slow[i].bytes, "slow-pipe", 0, false)
+			r.AddEvals(1)
+			if kind != "" {
+				r.Violate("input", kind+"/slow-pipe", slow[i].name+": "+msg, c19Case{Name: slow[i].name, Schedule: "slow-pipe", File: base64.StdEncoding.EncodeToString(slow[i].bytes)})
+			}
+		})
+		r.Obs("inputs_through_a_slow_pipe", len(slow))
+	}
 	if r.Variant == "" {
 		// first use of the auto-detecting loader under contention, in many fresh processes
 		var vs []string
